@@ -36,11 +36,15 @@ def rich_image(rng, ft, **geom):
         return cs
     exp = {}
     files = []
-    # a fragmented, reversed chain ending in the maximal cluster number
+    # a fragmented, reversed chain through the maximal cluster number: it is a link value (the second cluster of the chain), which is
+    # what the chain follower classifies -- on a volume with the largest cluster count of its type it lies above MAX_DATA_CLUSTER (D36)
     c1 = sorted(take(4), reverse=True)
     if hi in pool:
         pool.remove(hi)
-        c1[0] = hi
+        c1[1] = hi
+    elif hi in c1:
+        c1.remove(hi)
+        c1.insert(1, hi)
     d1 = bytes(rng.randrange(256) for _ in range(4 * bpc - 3))
     files.append(("A Foreign Long Name.data", b"AFOREI~1DAT", 0x20, c1, d1))
     exp["/A Foreign Long Name.data"] = ("f", len(d1), d1)
